@@ -36,6 +36,10 @@ def gen_case(rng, tier, k):
         # inside a trap space): the limit can hit while a node's valuations are being attached
         bnet = common.g_idtrap(rng, nmax) if rng.random() < 0.5 else common.free_inputs(rng, common.g_chains(rng, total_max=nmax, kind="input")) if rng.random() < 0.3 else common.g_chains(rng, total_max=nmax, kind="input")
         ops = ops[:rng.randint(0, 2)] + [["blockx", rng.random() < 0.5, rng.choice([1, 2, 3, 4, 5, 6, 8]), True, False]] + ops[2:4]
+    if rng.random() < 0.12:
+        # attractor-seed expansion under a size limit: True must mean that every minimal trap space has been expanded
+        bnet = common.g_union(rng, nmax) if rng.random() < 0.5 else bnet
+        ops = ops[:rng.randint(0, 1)] + [["aseeds", rng.randint(1, 8)]] + ops[1:3]
     if rng.random() < 0.4:
         j = rng.randrange(len(ops))
         ops[j] = ops[j] + [{"fail_at": rng.randint(1, 4)}]
@@ -45,11 +49,79 @@ def gen_case(rng, tier, k):
     # "resume = uninterrupted run" is claimed for bfs/dfs/minimal-space/attractor-seed/target expansion only: a diagram that
     # went through the source-node shortcut has valuation children instead of stable-motif children by design
     shortcut = any(op[0] == "blockx" and op[3] for op in ops)
-    return {"bnet": bnet, "max_motifs": mm, "ops": ops, "final_full": not shortcut, "judge_contract": True,
-            "check": "weak" if shortcut else True}
+    case = {"bnet": bnet, "max_motifs": mm, "ops": ops, "final_full": not shortcut, "judge_contract": True,
+            "check": "weak" if shortcut else True, "judge_leaves_after": ["aseeds"]}
+    if rng.random() < 0.15:
+        # the attractor query under a resource limit on an early-stopped diagram: an error caches nothing, a relaxed
+        # repeat gives the exact answer, an answer without error is exact
+        case["attr_limit"] = {"limit": rng.choice([1, 2, 3]), "threshold": rng.choice([1000, 1000, 4, 2]), "nodes": [rng.randrange(64) for _ in range(3)]}
+        if rng.random() < 0.6:
+            case["bnet"] = common.g_compose(rng, kind=rng.choice(["maa", "multi"]), extra_max=2)
+            case["ops"] = [rng.choice([["bfs", 0, 0, None], ["bfs", 0, 1, None], ["dfs", 0, 0, None], ["one", 0]])]
+    return case
+
+
+def attr_limit_check(case):
+    """C15, attractor clause: queries under `attractor_candidates_limit` on the diagram the history leaves behind"""
+    import plain
+    from attrs import Oracle, node_obs, judge_seeds_exact
+
+    al = case["attr_limit"]
+    sd = plain.make_sd(dict(case, cfg={"attractor_candidates_limit": al["limit"], "retained_set_optimization_threshold": al["threshold"]}))
+    ni = common.NetInfo(sd.network)
+    for op in case["ops"]:
+        if op[0] in ("setmm", "pickle") or (isinstance(op[-1], dict) and "fail_at" in op[-1]):
+            continue
+        try:
+            plain.apply_op(sd, ni, op)
+        except RuntimeError:
+            pass
+    fails = []
+    orc = Oracle(ni)
+    results = []
+    for a in al["nodes"]:
+        i = a % len(sd)
+        d = sd.node_data(i)
+        if d["skipped"]:
+            continue
+        err = False
+        try:
+            seeds = [dict(x) for x in sd.node_attractor_seeds(i, compute=True)]
+        except RuntimeError:
+            err = True
+            if d["attractor_seeds"] is not None or d["attractor_sets"] is not None:
+                fails.append({"kind": "cached-after-limit-error", "sig": {}, "detail": f"node {i}: seeds/sets cached although the candidate limit raised an error"})
+            sd.config["attractor_candidates_limit"] = 100000
+            sd.config["retained_set_optimization_threshold"] = 1000
+            try:
+                seeds = [dict(x) for x in sd.node_attractor_seeds(i, compute=True)]
+            except RuntimeError:
+                seeds = None
+            sd.config["attractor_candidates_limit"] = al["limit"]
+            sd.config["retained_set_optimization_threshold"] = al["threshold"]
+        if seeds is None:
+            continue
+        obs = node_obs(sd, i)
+        orc.own((i, err), obs["space"], obs["succ"])
+        results.append(((i, err), obs, seeds))
+    if results:
+        orc.run()
+        for key, obs, seeds in results:
+            f, _ = judge_seeds_exact(orc, key, obs, seeds, what="seeds under a candidate limit" + (" (after the error, limit relaxed)" if key[1] else ""))
+            for x in f:
+                x.setdefault("sig", {})["after_error"] = key[1]
+            fails += f
+    return fails
 
 
 def run_case(case):
+    if case.get("attr_limit"):
+        r = run_plain_history(case)
+        r["fails"] += attr_limit_check(case)
+        r["tags"].append("attractor-query-under-candidate-limit")
+        early = [t for t in r["tags"] if t.startswith("early-stop") or t in ("motif-limit-error", "injected-solver-failure")]
+        r["nontrivial"] = bool(early) and r["nontrivial"]
+        return r
     r = run_plain_history(case)
     early = [t for t in r["tags"] if t.startswith("early-stop") or t in ("motif-limit-error", "injected-solver-failure")]
     r["nontrivial"] = bool(early) and r["nontrivial"]
